@@ -25,8 +25,8 @@ import (
 
 // Step describes how to answer one protocol step.
 type Step struct {
-	// Fault: ok | wrong-name | wrong-version | no-feature | exception | wrong-envelope-type |
-	// garbage | truncate | one-byte-writes | exit-before-read | exit-after-read | oversized-length
+	// Fault: ok | wrong-name | wrong-version | older-version | no-feature | exception | wrong-envelope-type |
+	// garbage | truncate | one-byte-writes | exit-before-read | exit-after-read | oversized-length[-msb|-max]
 	Fault  string `json:"fault"`
 	Offset int    `json:"offset"` // for truncate: number of bytes of the frame to write
 }
@@ -126,6 +126,8 @@ func main() {
 				hsName = name + "-impostor"
 			case "wrong-version":
 				ver = sc.APIVersion + 1
+			case "older-version":
+				ver = sc.APIVersion - 1
 			case "no-feature":
 				features = nil
 			}
@@ -170,9 +172,10 @@ func main() {
 		binary.BigEndian.PutUint32(frame, uint32(len(payload)))
 		frame = append(frame, payload...)
 		switch step.Fault {
-		case "oversized-length":
-			out.Write([]byte{0x7f, 0xff, 0xff, 0xff, 0x00})
-			logEvent("fault oversized-length at %s", method)
+		case "oversized-length", "oversized-length-msb", "oversized-length-max":
+			prefix := map[string][]byte{"oversized-length": {0x7f, 0xff, 0xff, 0xff}, "oversized-length-msb": {0x80, 0, 0, 0}, "oversized-length-max": {0xff, 0xff, 0xff, 0xff}}[step.Fault]
+			out.Write(append(append([]byte{}, prefix...), 0x00))
+			logEvent("fault %s at %s", step.Fault, method)
 			exit(3)
 		case "truncate":
 			k := step.Offset
